@@ -111,16 +111,18 @@ def resolve (chain : List Resolver) (fns : List Token.FnDef) (st : Imports.St) (
 
 def zeroArg : Output.Arg := { code := "", raw := .null }
 
+/-- one iteration of `resolveArgs` -/
+def resolveArgsStep (fns : List Token.FnDef) (acc : Imports.St × List Output.Arg × Errs × Nat) (v : Val) :
+    Imports.St × List Output.Arg × Errs × Nat :=
+  match resolve argChain fns acc.1 v with
+  | (st', .ok a) => (st', acc.2.1 ++ [a], acc.2.2.1, acc.2.2.2 + 1)
+  | (st', .error es) => (st', acc.2.1 ++ [zeroArg], acc.2.2.1 ++ Errs.pfx (toString acc.2.2.2 ++ ": ") es, acc.2.2.2 + 1)
+
 /-- `resolveArgs`: all arguments are resolved, errors prefixed `args: i: ` -/
 def resolveArgs (fns : List Token.FnDef) (st : Imports.St) (args : List Val) :
     Imports.St × List Output.Arg × Errs :=
-  let (st', out, errs, _) := args.foldl (fun (acc : Imports.St × List Output.Arg × Errs × Nat) v =>
-    let (st, out, errs, i) := acc
-    match resolve argChain fns st v with
-    | (st', .ok a) => (st', out ++ [a], errs, i + 1)
-    | (st', .error es) => (st', out ++ [zeroArg], errs ++ Errs.pfx (toString i ++ ": ") es, i + 1))
-    (st, [], [], 0)
-  (st', out, Errs.pfx "args: " errs)
+  let r := args.foldl (resolveArgsStep fns) (st, [], [], 0)
+  (r.1, r.2.1, Errs.pfx "args: " r.2.2.1)
 
 /-! ### steps -/
 
@@ -236,18 +238,20 @@ def compileServices (i : Input.Input) (fns : List Token.FnDef) (st : Imports.St)
       (st', ss ++ [o], errs ++ es)) (st, [], [])
   (ss, st', Errs.pfx "compiler.StepCompileServices: " errs)
 
+/-- one iteration of `StepCompileDecorators.Process` -/
+def compileDecoratorsStep (fns : List Token.FnDef)
+    (acc : Imports.St × List Output.Decorator × Errs × Nat) (d : Input.Decorator) :
+    Imports.St × List Output.Decorator × Errs × Nat :=
+  let r1 := goFuncRef acc.1 d.decorator
+  let r2 := resolveArgs fns r1.1 d.args
+  (r2.1, acc.2.1 ++ [{ tag := d.tag, decorator := r1.2, args := r2.2.1, raw := d.decorator }],
+    acc.2.2.1 ++ Errs.pfx ("#" ++ toString acc.2.2.2 ++ " " ++ Val.quoteStr d.decorator ++ ": ") r2.2.2, acc.2.2.2 + 1)
+
 /-- `StepCompileDecorators` -/
 def compileDecorators (i : Input.Input) (fns : List Token.FnDef) (st : Imports.St) :
     List Output.Decorator × Imports.St × Errs :=
-  let (st', ds, errs, _) := i.decorators.foldl
-    (fun (acc : Imports.St × List Output.Decorator × Errs × Nat) d =>
-      let (st, ds, errs, j) := acc
-      let (st1, method) := goFuncRef st d.decorator
-      let (st2, as, es) := resolveArgs fns st1 d.args
-      (st2, ds ++ [{ tag := d.tag, decorator := method, args := as, raw := d.decorator }],
-        errs ++ Errs.pfx ("#" ++ toString j ++ " " ++ Val.quoteStr d.decorator ++ ": ") es, j + 1))
-    (st, [], [], 0)
-  (ds, st', Errs.pfx "compiler.StepCompileDecorators: " errs)
+  let r := i.decorators.foldl (compileDecoratorsStep fns) (st, [], [], 0)
+  (r.2.1, r.1, Errs.pfx "compiler.StepCompileDecorators: " r.2.2.1)
 
 /-- `Compiler.Compile` with the shipped step order: validate, meta, params, services, decorators;
 the first failing step ends the compilation. -/
